@@ -1,4 +1,5 @@
 import Pike.Model.Config
+import Pike.Facts
 /-
 C17 — accepted configurations are closed under references and round-trip (PARTIAL: the
 struct-tag validators and YAML are library code; they enter as `structOK` and the `Yaml`
@@ -7,6 +8,15 @@ hypothesis and are compared in the `config` suite).
 namespace Pike
 namespace C17
 open Config
+
+/-- Obligation on the extracted facts (main.go `update`, the registries' `Reset`): an accepted
+configuration is applied bottom-up — compress, caches, upstreams, locations, servers — so that
+nothing is visible before what it refers to; a replaced upstream is stored over the old one BEFORE
+the old one is destroyed (no moment without an entry under a name both configurations define), and a
+location list is swapped in one assignment. -/
+theorem facts_applied_without_gaps :
+    Facts.reloadOrder = ["compress.Reset", "cache.ResetDispatchers", "upstream.ResetWithOnStats", "location.Reset", "server.Reset", "server.Start"]
+    ∧ Facts.upstreamsResetStoresBeforeDestroy = true ∧ Facts.locationsSetSingleSwap = true := by decide
 
 theorem firstBad_ok {vs : List Verdict} (h : firstBad vs = .ok) : ∀ v ∈ vs, v = .ok := by
   induction vs with
